@@ -201,10 +201,32 @@ def _origin_in_repo(tb):
     return None
 
 
+def _reset_interference(shard, explorer=True):
+    """object-interference counters (space.py) start every shard from a value that only depends on the shard: re-running the shard
+    reproduces the same pattern of decoys and default arguments"""
+    try:
+        from . import space
+        k = int(hashlib.sha1(repr(shard).encode()).hexdigest()[:6], 16) % 7
+        space._decoy["n"] = k
+        space._build["n"] = k
+        if explorer:
+            space.INTERFERENCE["all"] = False
+    except Exception:
+        pass
+
+
 def _call(args):
     fn, shard = args
+    _reset_interference(shard)
     try:
-        return fn(shard)
+        r = fn(shard)
+        if r.viols and not isinstance(fn, Pooled):
+            import base64
+            import pickle
+            ref = {"module": fn.__module__, "fn": fn.__name__, "shard_pickle": base64.b64encode(pickle.dumps(shard)).decode()}
+            for v in r.viols:
+                v["_shard"] = ref
+        return r
     except Exception as e:
         import base64
         import pickle
@@ -260,6 +282,11 @@ def replay_shard(case):
     if case.get("pooled"):
         fn = Pooled(fn)
     out = _call((fn, pickle.loads(base64.b64decode(case["shard_pickle"]))))
+    try:
+        from . import space
+        space.INTERFERENCE["all"] = True
+    except Exception:
+        pass
     return [(v["site"], v["what"]) for v in out.viols]
 
 
@@ -350,6 +377,11 @@ def finish(ctx, module, level, rule, assumptions, extra_cov=None):
     for v in res.viols:
         by_site.setdefault(v["site"], v)
     MAXREP = int(os.environ.get("VERIF_MAX_SITES", "40"))
+    try:
+        from . import space as _space
+        _space.INTERFERENCE["all"] = True      # replays: strongest, deterministic object interference (see space.py)
+    except Exception:
+        pass
     more = []
     for site, v in by_site.items():
         if site.startswith("HARNESS/"):
@@ -368,6 +400,15 @@ def finish(ctx, module, level, rule, assumptions, extra_cov=None):
             continue
         s1 = sorted(x[0] for x in r1)
         s2 = sorted(x[0] for x in r2)
+        if s1 == s2 and site not in s1 and "_shard" in v:
+            # not reproduced on the single case with full interference: the observation may depend on the pattern of object interference the
+            # explorer produced in that shard; re-run the shard (same pattern by construction), twice
+            sc = dict(v["_shard"], kind="shard-replay", pooled=False)
+            q1, q2 = replay_shard(sc), replay_shard(sc)
+            if site in [x[0] for x in q1] and site in [x[0] for x in q2]:
+                v = dict(v, case=sc, what=v["what"] + " [reproduced by re-running its shard, not by the single case: depends on other objects constructed in between]")
+                by_site[site] = v
+                s1 = s2 = [site]
         if s1 != s2 or site not in s1:
             ctx.harness_errors.append("non-reproducible observation at %s: explorer saw it, replays saw %s / %s"
                                       % (site, s1, s2))
